@@ -875,7 +875,12 @@ func regRun(e *Env) {
 			}
 		}
 		e.Check()
-		if strings.Join(pongs, "\n") != strings.Join(wantPongs, "\n") {
+		// (each PING answered once with its own token; the statement does not
+		// say in which order the answers leave)
+		sp, sw := append([]string{}, pongs...), append([]string{}, wantPongs...)
+		sort.Strings(sp)
+		sort.Strings(sw)
+		if strings.Join(sp, "\n") != strings.Join(sw, "\n") {
 			e.Violation("pong", "connection %d: server PINGs were answered by %s, want %s (the client was sending %d lines of its own meanwhile; connected=%v)", conn, clipq(pongs), clipq(wantPongs), nChat, discs == 0)
 			return
 		}
